@@ -11,6 +11,69 @@ from sem import gen as G
 from sem import variants as V
 
 
+MIXED = {
+    'Date': ['2020-01-15', '2020-03-01 12:30:45', '2021-12-31T23:59:59', '1999-02-28', '2020-02-29', None],
+    'Time_Period': ['2020M1', '2020-Q1', '2020A', '2020-M03', '2019-S2', '2021-W05', None],
+    'Time': ['2020-01-01/2020-12-31', '2020-02-01/2020-02-29', None],
+    'Duration': ['A', 'M', 'D', None],
+    'String': ['1', '1.0', 'abc', '', ' x', 'true', '2020-01-01', None],
+    'Number': [1, 2.5, -3, 1e-7, 12345678.125, 0, None],
+    'Integer': [1, -2, 0, 2147483648, None],
+    'Boolean': [True, False, None],
+}
+
+
+def typed_stream(ck, q):
+    """inputs whose columns MIX the spellings a type allows (bare dates with date-times, several period spellings,
+    numeric-looking strings, ints with floats): the loader must decide per value, never from the first rows."""
+    import pandas as pd
+    from sem import variants as Vv
+    import multiprocessing as mp
+    cases = []
+    for _ in range(24 if q else 300):
+        r = ck.rng
+        types = r.sample(sorted(MIXED), r.choice([1, 2, 3]))
+        n = r.choice([3, 4, 5, 6])
+        rows = []
+        for i in range(n):
+            rows.append([i + 1] + [r.choice(MIXED[t]) for t in types])
+        comps = [{'name': 'Id_1', 'type': 'Integer', 'role': 'Identifier', 'nullable': False}] + \
+                [{'name': 'Me_%d' % (k + 1), 'type': t, 'role': 'Measure', 'nullable': True} for k, t in enumerate(types)]
+        script = r.choice(['DS_r <- DS_1;', 'DS_r <- DS_1[filter Id_1 > 0];', 'DS_r <- DS_1[calc Me_9 := Me_1];',
+                           'DS_r <- DS_1[rename Me_1 to Me_8];', 'DS_r <- union(DS_1, DS_1);'])
+        cases.append({'structs': {'datasets': [{'name': 'DS_1', 'DataStructure': comps}]}, 'cols': [c['name'] for c in comps], 'rows': rows,
+                      'types': types, 'script': script})
+    jobs = []
+    nperm = 4 if q else 8
+    for c in cases:
+        for k in range(nperm + 1):
+            jobs.append((c, k, 'df' if k % 2 == 0 else 'csv'))
+    with mp.Pool(min(12, max(2, (os.cpu_count() or 2) - 2)), initializer=Vv._init) as pool:
+        outs = pool.map(Vv.typed_worker, jobs, chunksize=2)
+    i = 0
+    hist = {}
+    for c in cases:
+        rs = outs[i:i + nperm + 1]
+        i += nperm + 1
+        ref = {'df': rs[0], 'csv': rs[1]}
+        hist[rs[0][0]] = hist.get(rs[0][0], 0) + 1
+        ck.count(('typed', c['script'], str(c['rows'])), nontrivial=rs[0][0] == 'ok', n=nperm + 1)
+        for k in range(2, nperm + 1):
+            form = 'df' if k % 2 == 0 else 'csv'
+            a, b = ref[form], rs[k]
+            if a[0] == 'timeout' or b[0] == 'timeout':
+                continue
+            ok, why = Vv.same_result(a, b)
+            if not ok:
+                ck.violation('permutation-changes-result:%s:mixed-spellings:%s' % (form, '+'.join(sorted(c['types']))),
+                             {'script': c['script'], 'structures': c['structs'], 'columns': c['cols'], 'rows': c['rows'], 'form': form,
+                              'permutation_seed': k, 'as_given': str(a)[:700], 'permuted': str(b)[:700], 'why': why},
+                             'permuting the rows of an input whose %s column mixes allowed spellings (%s form) changes the result: %s'
+                             % ('/'.join(c['types']), form, why))
+                break
+    ck.note('typed_stream_outcomes', hist)
+
+
 def corpus_stream(ck, q):
     """the upstream corpus (every run() call of the upstream tests, harvested not executed): each call is replayed as
     recorded and with the rows and columns of every CSV input shuffled; results compared as sets."""
@@ -98,6 +161,7 @@ def main(ck):
                                    'variant': var, 'base': str(ref)[:800], 'permuted': str(v)[:800], 'why': why},
                              'permuting input rows/columns (%s form) changed the result of %s: %s' % (var.get('form'), c['vtl'][:120], why))
                 break
+    typed_stream(ck, q)
     corpus_stream(ck, q)
     ck.note('outcomes', hist)
     ck.cov['rule'] = ('case = (script, data); each case is run once as given and %d times with permuted rows + shuffled columns (DataFrame and CSV); '
